@@ -206,10 +206,21 @@ def _model_case(case):
         case.check(ok, "(max, step) rotation range does not expand to every multiple of step within +-max", None,
                    range=rg, got=len(got), want=len(want))
     # oracle B on inputs without ground truth
-    for kind in ("noise", "mix"):
+    for kind in ("noise", "mix", "inverted"):
         img = rng.normal(size=shape).astype(np.float32)
         if kind == "mix" and T > 1:
             img = (tmpls[0] + tmpls[-1]).astype(np.float32)
+        if kind == "inverted":
+            # contrast-inverted particle with a small range: every candidate scores below zero, the best is still
+            # the arg-max ("larger is better" is the only contract between a model and the search)
+            jj, kk_ = int(rng.integers(0, T)), int(rng.integers(0, K))
+            img = (-gen.render_box(shape, sp[jj], R=rots[kk_], d=rng.uniform(-0.3, 0.3, 3))).astype(np.float32)
+            res = model.align(img, (0.6, 0.6, 0.6))
+            cands_ = log.take()
+            if cands_ and max(c[0] for c in cands_) < 0:
+                case.count("all_candidates_negative")
+            _oracle_b(case, res, cands_, model, T, K, "align(inverted)")
+            continue
         res = model.align(img, (M, M, M))
         _oracle_b(case, res, log.take(), model, T, K, f"align({kind})")
 
